@@ -4,6 +4,8 @@ import (
 	"encoding/json"
 	"fmt"
 	"os"
+	"path/filepath"
+	"strings"
 )
 
 // replayObligation records a failed obligation and, where a model is available, tries to
@@ -26,6 +28,8 @@ func replayObligation(prog *Prog, fr *FuncResult, o *Obligation, prop, path stri
 		var extra map[string]any
 		if fr.Lemma != nil {
 			v, extra = tryReplayLemma(prog, fr, o, timeoutS)
+		} else if tv, te, ok := tryTemplateReplay(fr); ok {
+			v, extra = tv, te
 		} else {
 			v, extra = tryReplay(prog, fr, o, timeoutS)
 		}
@@ -39,6 +43,39 @@ func replayObligation(prog *Prog, fr *FuncResult, o *Obligation, prop, path stri
 	rec["verdict"] = verdict
 	writeJSON(path, rec)
 	return verdict
+}
+
+// tryTemplateReplay runs a fault-enumeration harness for functions whose inputs are database transactions
+// (C18): the real function is executed against a stub SQL driver failing every statement position in turn.
+func tryTemplateReplay(fr *FuncResult) (string, map[string]any, bool) {
+	if fr.VC == nil || fr.VC.fn == nil || fr.VC.fn.Pkg == nil {
+		return "", nil, false
+	}
+	path := fr.VC.fn.Pkg.Pkg.Path()
+	if !strings.HasSuffix(path, "/server/db/mysql") {
+		return "", nil, false
+	}
+	data, err := os.ReadFile(filepath.Join(verifRoot, "replay_templates", "c18_sqlx_test.go.tmpl"))
+	if err != nil {
+		return "", nil, false
+	}
+	pkgDir := strings.TrimPrefix(path, repoModule+"/")
+	extra := map[string]any{"package_dir": pkgDir, "test_name": "TestVerifReplay", "build_tags": "verif,mysql"}
+	var outs []string
+	for _, b := range []string{"false", "true"} {
+		src := strings.NewReplacer("PKGNAME", fr.VC.fn.Pkg.Pkg.Name(), "FUNCNAME", fr.VC.fn.Name(), "DUMMYBOOL", b).Replace(string(data))
+		out, _ := runGoTest(pkgDir, src, "TestVerifReplay", "verif,mysql")
+		outs = append(outs, lastLines(out, 30))
+		extra["go_test"] = src
+		if strings.Contains(out, "VERIF-REPLAY violation") {
+			extra["real_output"] = lastLines(out, 40)
+			extra["inputs"] = "stub SQL driver failing each statement position in turn; bool arguments = " + b
+			return "reproduced", extra, true
+		}
+	}
+	extra["real_output"] = strings.Join(outs, "\n")
+	extra["replay_note"] = "the fault-enumeration harness (every statement position failing in turn, dummy arguments) found no violation on the real code"
+	return "", extra, true
 }
 
 func cmdReplay(args []string) int {
